@@ -114,7 +114,7 @@ func _deploy(data any, isUpdate bool) {
 				data := storage.Get(ctx, key)
 				if data != nil {
 					nodes := std.Deserialize(data.([]byte)).([]oldNode)
-					var newnodes []Node
+					newnodes := []Node{}
 					for j := range nodes {
 						// Old structure contains only the first field,
 						// second is implicitly assumed to be Online.
